@@ -103,6 +103,8 @@ pub fn stabilizer<I>(base_point: usize, rels: I, ct: &CosetTable)
     -> (Vec<FreeWord> , Vec<FreeWord>)
     where I: IntoIterator<Item=FreeWord> + Clone
 {
+    #[cfg(rust_dsymbols_verif)]
+    crate::verif_hooks::probe("fpgroups::stabilizer");
     let rels: Vec<_> = rels.into_iter().collect();
     let rels_by_gen = relators_by_start_gen(&rels);
 
